@@ -773,6 +773,9 @@ func (s *recordingSpan) AddLink(link trace.Link) {
 		l.DroppedAttributeCount = len(l.Attributes) - limit
 		l.Attributes = l.Attributes[:limit]
 	}
+	// The link outlives this call: keep a copy of the attributes, not the
+	// caller's backing array (the caller may reuse or rewrite its slice).
+	l.Attributes = slices.Clone(l.Attributes)
 
 	s.links.add(l)
 }
